@@ -19,10 +19,14 @@ import time
 
 VERIF = os.path.dirname(os.path.dirname(os.path.abspath(__file__)))
 SPECS = os.path.join(VERIF, "specs")
-HARNESS = os.path.join(VERIF, "harness")
-WORK = os.path.join(VERIF, "work")
-EVIDENCE = os.path.join(VERIF, "evidence")
-REPLAY = os.path.join(VERIF, "replay")
+# Overrides used only for mutation trials on a scratch copy (tools/mutant); registered checks
+# run without them: harness in /verif/harness, path dependency on /repo.
+REPO = os.environ.get("VERIF_REPO", "/repo")
+HARNESS = os.environ.get("VERIF_HARNESS_DIR", os.path.join(VERIF, "harness"))
+_SCRATCH = os.environ.get("VERIF_SCRATCH", VERIF)
+WORK = os.path.join(_SCRATCH, "work")
+EVIDENCE = os.path.join(_SCRATCH, "evidence")
+REPLAY = os.path.join(_SCRATCH, "replay")
 KNOWN = os.path.join(VERIF, "known_findings.txt")
 
 
@@ -78,6 +82,7 @@ def build_harness(bin_name, features=None, target_suffix=""):
 
 def run_harness(binpath, args, timeout=1800, env_extra=None, stdin=None):
     env = dict(os.environ)
+    env["VERIF_REPO"] = REPO
     if env_extra:
         env.update(env_extra)
     try:
